@@ -54,6 +54,14 @@ class CmdLineFileParser(configparser.ConfigParser):
 def get_cmd_line_file(build_dir: str) -> str:
     return os.path.join(build_dir, 'meson-private', 'cmd_line.txt')
 
+def _write_cmd_line_config(filename: str, config: CmdLineFileParser) -> None:
+    # Never truncate the file in place: an interrupted write must not leave a
+    # build directory whose recorded command line cannot be read back.
+    tempfilename = filename + '~'
+    with open(tempfilename, 'w', encoding='utf-8') as f:
+        config.write(f)
+    os.replace(tempfilename, filename)
+
 def read_cmd_line_file(build_dir: str, options: SharedCMDOptions) -> None:
     filename = get_cmd_line_file(build_dir)
     if not os.path.isfile(filename):
@@ -64,13 +72,14 @@ def read_cmd_line_file(build_dir: str, options: SharedCMDOptions) -> None:
 
     # Do a copy because config is not really a dict. options.cmd_line_options
     # overrides values from the file.
-    d: dict[OptionKey, str | None] = {OptionKey.from_string(k): v for k, v in config['options'].items()}
+    stored = config['options'] if config.has_section('options') else {}
+    d: dict[OptionKey, str | None] = {OptionKey.from_string(k): v for k, v in stored.items()}
     d.update(options.cmd_line_options)
     options.cmd_line_options = d
     options.builtin_keys = set()
     options.d_keys = set(d)
 
-    properties = config['properties']
+    properties = config['properties'] if config.has_section('properties') else {}
     if not options.cross_file:
         options.cross_file = ast.literal_eval(properties.get('cross_file', '[]'))
     if not options.native_file:
@@ -90,8 +99,7 @@ def write_cmd_line_file(build_dir: str, options: SharedCMDOptions) -> None:
 
     config['options'] = {str(k): str(v) for k, v in options.cmd_line_options.items()}
     config['properties'] = {k: repr(v) for k, v in properties.items()}
-    with open(filename, 'w', encoding='utf-8') as f:
-        config.write(f)
+    _write_cmd_line_config(filename, config)
 
 def update_cmd_line_file(build_dir: str, options: SharedCMDOptions) -> None:
     filename = get_cmd_line_file(build_dir)
@@ -109,8 +117,7 @@ def update_cmd_line_file(build_dir: str, options: SharedCMDOptions) -> None:
         elif keystr in config['options']:
             del config['options'][keystr]
 
-    with open(filename, 'w', encoding='utf-8') as f:
-        config.write(f)
+    _write_cmd_line_config(filename, config)
 
 def format_cmd_line_options(options: SharedCMDOptions) -> str:
     cmdline = ['-D{}={}'.format(str(k), v) for k, v in options.cmd_line_options.items()]
